@@ -651,6 +651,23 @@ func GenUciSession(prop string, seed uint64) *Scenario {
 				toggle = checks[rng.Intn(len(checks))]
 			}
 		}
+		// the game before the new game went through the very position that
+		// is searched afterwards (as deep as the cost model allows): whatever
+		// the engine keeps from a game is then about this position. Drawn
+		// from a stream of its own; the rest of the session does not change.
+		if pr := NewPRNG(seed, "newgame-prime/"+prop); pr.Chance(0.6) {
+			goLine = fmt.Sprintf("go depth %d", maxD)
+			n := pr.Range(1, 2)
+			for k := 0; k < n; k++ {
+				d := maxD - pr.Intn(2)
+				if d < 1 {
+					d = 1
+				}
+				add(gapAfterResult(pr), "send", posCmd)
+				add(20, "send", fmt.Sprintf("go depth %d", d))
+				add(0, "wait_best", "").MaxMs = 600_000
+			}
+		}
 		restore := curOpt[toggle]
 		if toggle != "" {
 			flipped := "true"
